@@ -572,12 +572,22 @@ func (c *Conv) getSubImage(x tensor.Tensor, batchIdx int, startSpatialCoords ...
 		slices = append(slices, ops.NewSlicer(dimStartIdx, dimStartIdx+dimKernelSize))
 	}
 
-	subImage, err := x.Slice(slices...)
+	subImageView, err := x.Slice(slices...)
 	if err != nil {
 		return nil, err
 	}
 
-	return subImage.Materialize(), nil
+	// Slicing drops every axis of which a single element is taken, which is the batch
+	// axis but also every spatial axis along which the kernel has extent one. Restore
+	// the latter, such that the sub image can be multiplied with the kernel.
+	subImage := subImageView.Materialize()
+	subImageShape := append([]int{x.Shape()[1]}, c.kernelShape...)
+
+	if err := subImage.Reshape(subImageShape...); err != nil {
+		return nil, err
+	}
+
+	return subImage, nil
 }
 
 // addBias adds a bias to the output of the convolution. It reshapes the
